@@ -2,7 +2,7 @@
    (instance.cpp:187-213, 302-589): which scripts, initial stack, script version and execution data the debugger
    sets up for the selected input, and with which data the signature checker is built. *)
 From BV Require Import Base ScriptNum Script Interp Session Tx TxCli Sighash.
-From BV.Gen Require Import Consts.
+From BV.Gen Require Import Consts Sites.
 Local Open Scope Z_scope.
 
 Section Configure.
@@ -98,7 +98,7 @@ Definition configure_v1 (program : bytes) (wstack : list bytes) (amount : Z) : c
         let script := last stack1 [] in
         let stack2 := removelast stack1 in
         let n := zlen control in
-        if (n <? TAPROOT_CONTROL_BASE_SIZE) || (TAPROOT_CONTROL_MAX_SIZE <? n) || negb ((n - TAPROOT_CONTROL_BASE_SIZE) mod TAPROOT_CONTROL_NODE_SIZE =? 0)
+        if cmp_eval site_control_min n TAPROOT_CONTROL_BASE_SIZE || cmp_eval site_control_max n TAPROOT_CONTROL_MAX_SIZE || negb ((n - TAPROOT_CONTROL_BASE_SIZE) mod TAPROOT_CONTROL_NODE_SIZE =? 0)
         then CfgRefused
         else if negb (Z.land (hd 0 control) TAPROOT_LEAF_MASK =? TAPROOT_LEAF_TAPSCRIPT) then CfgRefused
         else if negb (has_valid_ops script) then CfgRefused
